@@ -93,6 +93,8 @@ package cors
 //@   props C04 C05 C08 C15 C17
 //@   local allowedMethods util.Set
 //@   local errs []error
+//@   local name string
+//@   local err *cfgerrors.UnacceptableMethodError
 //@   frozen E! F!util_Set
 //@   uses mem_empty
 //@   requires icfg != nil && icfg > 0
@@ -122,6 +124,10 @@ package cors
 //@   props C04 C05 C06 C08 C15 C17
 //@   local allowedHeaders util.SortedSet
 //@   local errs []error
+//@   local name string
+//@   local err *cfgerrors.UnacceptableHeaderNameError
+//@   local normalized string
+//@   local s []string
 //@   frozen E! F!util_Set
 //@   uses mem_empty
 //@   requires icfg != nil && icfg > 0
@@ -155,9 +161,12 @@ package cors
 
 //@ func internalConfig.validateResponseHeaders
 //@   props C04 C05 C06 C08 C15 C17
+//@   local exposedHeaders util.Set
 //@   local errs []error
 //@   local exposeAllResHdrs bool
-//@   local exposedHeaders util.Set
+//@   local name string
+//@   local err *cfgerrors.UnacceptableHeaderNameError
+//@   local normalized string
 //@   frozen E! F!util_Set
 //@   uses mem_empty
 //@   requires icfg != nil && icfg > 0
@@ -181,10 +190,15 @@ package cors
 
 //@ func internalConfig.validateOrigins
 //@   props C01 C04 C05 C06 C08 C15 C17
-//@   local allowAnyOrigin bool
-//@   local errs []error
-//@   local pna bool
+//@   local err *cfgerrors.IncompatibleOriginPatternError
 //@   local tree origins.Tree
+//@   local discreteOrigin string
+//@   local errs []error
+//@   local allowAnyOrigin bool
+//@   local pna bool
+//@   local raw string
+//@   local pattern origins.Pattern
+//@   local isEffectiveTLD bool
 //@   frozen E!Str E!Int F!util_Set
 //@   requires icfg != nil && icfg > 0
 //@   requires icfg.tree.root.schemes == nil && icfg.tree.root.children == nil && len(icfg.tree.root.edges) == 0 && len(icfg.tree.root.ports) == 0
